@@ -2,6 +2,7 @@
 //
 //	server record <tcp|pc|udp> <out.ndjson> <nruns>   un-gated seeded scenarios, events logged for Trace_Server
 //	server replay <tcp|pc> <plans.ndjson> <out.ndjson>  TLC behaviours forced onto the real server through the gates
+//	server reuse <nruns>                              one Server value reused across transports (real sockets, ListenAndServe)
 //
 // The restart-during-shutdown schedules are ordinary plans (TLC counter-examples of MC_Server_restart);
 // the driver replays each in its own process with a time-out.
@@ -29,6 +30,12 @@ func main() {
 		}
 		n, _ := strconv.Atoi(os.Args[4])
 		record(os.Args[2], os.Args[3], n)
+	case "reuse":
+		if len(os.Args) < 3 {
+			hx.Die("usage: server reuse <nruns>")
+		}
+		n, _ := strconv.Atoi(os.Args[2])
+		reuse(n)
 	case "replay":
 		if len(os.Args) < 5 {
 			hx.Die("usage: server replay <tcp|pc> <plans.ndjson> <out.ndjson>")
